@@ -380,4 +380,442 @@ Proof.
   destruct m3 as [e|]; simpl; [reflexivity|].
   apply por_pi; [apply por_pi; [apply single_quoted_literal_pi | intros; apply double_quoted_literal_pi] | intros; apply instruction_pointer_pi].
 Qed.
+(* ---- lists of nodes, operator stacks ------------------------------------------------------------------------- *)
+Definition shl (l : list node) : list node := map shn l.
+Definition sho (x : opent) : opent := match x with OPre s o => OPre (s + k) o | OIn o => OIn o end.
+Definition shos (l : list opent) : list opent := map sho l.
+
+Lemma shn_go l : (fix go (l : list node) : list node := match l with [] => [] | x :: r => shn x :: go r end) l = shl l.
+Proof. induction l; simpl; auto; try (f_equal; auto). Qed.
+Lemma node_start_shn n : node_start (shn n) = node_start n + k.
+Proof. destruct n; reflexivity. Qed.
+Lemma shl_rev l : shl (rev l) = rev (shl l).
+Proof. unfold shl. apply map_rev. Qed.
+Lemma shn_concat s e l : shn (Concat s e l) = Concat (s + k) (e + k) (shl l).
+Proof. simpl. rewrite shn_go. reflexivity. Qed.
+Lemma shn_words s e l : shn (Words s e l) = Words (s + k) (e + k) (shl l).
+Proof. simpl. rewrite shn_go. reflexivity. Qed.
+Lemma shn_insn s e nm l : shn (Insn s e nm l) = Insn (s + k) (e + k) (shn nm) (shl l).
+Proof. simpl. rewrite shn_go. reflexivity. Qed.
+Lemma shn_block s e b l : shn (Block s e b l) = Block (s + k) (e + k) (match b with Some p => Some (p + k) | None => None end) (shl l).
+Proof. simpl. rewrite shn_go. reflexivity. Qed.
+
+Definition shp (p : list opent * list node) := (shos (fst p), shl (snd p)).
+Lemma pop_op_pi e ops st : pop_op (e + k) (shos ops) (shl st) = option_map shp (pop_op e ops st).
+Proof.
+  unfold pop_op. destruct ops as [|[s o|o] ops']; simpl; auto.
+  - destruct st as [|x st']; simpl; auto.
+  - destruct st as [|rhs [|lhs st']]; simpl; auto. rewrite node_start_shn. reflexivity.
+Qed.
+Arguments pop_op : simpl never.
+Lemma opent_prec_sho x : opent_prec (sho x) = opent_prec x. Proof. destruct x; reflexivity. Qed.
+Lemma pop_while_pi p l e ops st : pop_while p l (e + k) (shos ops) (shl st) = option_map shp (pop_while p l e ops st).
+Proof.
+  revert st; induction ops as [|top ops' IH]; intros st; simpl; auto.
+  rewrite opent_prec_sho. destruct ((opent_prec top <? p) || (opent_prec top =? p) && l); [|reflexivity].
+  change (sho top :: shos ops') with (shos (top :: ops')). rewrite pop_op_pi.
+  destruct (pop_op e (top :: ops') st) as [[o2 st2]|]; simpl; auto; try apply IH.
+Qed.
+Lemma pop_all_pi e ops st : pop_all (e + k) (shos ops) (shl st) = option_map shl (pop_all e ops st).
+Proof.
+  revert st; induction ops as [|top ops' IH]; intros st; simpl; auto.
+  change (sho top :: shos ops') with (shos (top :: ops')). rewrite pop_op_pi.
+  destruct (pop_op e (top :: ops') st) as [[o2 st2]|]; simpl; auto; try apply IH.
+Qed.
+Lemma finish_expression_pi ops st c d :
+  finish_expression (shos ops) (shl st) (shc c) (sd d) = so shn (finish_expression ops st c d).
+Proof.
+  unfold finish_expression. pget c0 c1 d1. rewrite shc_pos, pop_all_pi.
+  destruct (pop_all (pos c0) ops st) as [[|x l]|]; reflexivity.
+Qed.
+
+Definition shr (r : node * list opent) := (shn (fst r), shos (snd r)).
+
+Record funs_pi (R : funs) : Prop := mkPi {
+  pi_expression : forall t c d, r_expression R t (shc c) (sd d) = so shn (r_expression R t c d);
+  pi_prefix_loop : forall t cs cop ops c d,
+      r_prefix_loop R t (shc cs) (shc cop) (shos ops) (shc c) (sd d) = so shr (r_prefix_loop R t cs cop ops c d);
+  pi_infix_loop : forall t ops st c d, r_infix_loop R t (shos ops) (shl st) (shc c) (sd d) = so shn (r_infix_loop R t ops st c d);
+  pi_elr_loop : forall t cs v c d, r_elr_loop R t (shc cs) (option_map shn v) (shc c) (sd d) = so shn (r_elr_loop R t cs v c d);
+  pi_long_loop : forall cs ch c d, r_long_loop R (shc cs) (shl ch) (shc c) (sd d) = so shn (r_long_loop R cs ch c d);
+  pi_operand_loop : forall nm cs can ns ops cbc c d,
+      r_operand_loop R nm (shc cs) (shc can) (shn ns) (shl ops) (shc cbc) (shc c) (sd d) = so shn (r_operand_loop R nm cs can ns ops cbc c d);
+  pi_words_loop : forall cs cafo ws c d, r_words_loop R (shc cs) (shc cafo) (shl ws) (shc c) (sd d) = so shn (r_words_loop R cs cafo ws c d);
+  pi_code_loop : forall brk cs insns c d, r_code_loop R brk (shc cs) (shl insns) (shc c) (sd d) = so shn (r_code_loop R brk cs insns c d);
+  pi_quoted : forall c d, r_quoted R (shc c) (sd d) = so shn (r_quoted R c d)
+}.
+
+Section BodiesPi.
+Variable R : funs.
+Hypothesis HR : funs_pi R.
+
+Lemma opening3_pi c d : opening3 (shc c) (sd d) = so idf (opening3 c d).
+Proof.
+  unfold opening3. apply por_pi; [apply por_pi|]; [unfold opening_parenthesis; prim | intros; unfold opening_angle_bracket; prim | intros; prim].
+Qed.
+
+Lemma elr_loop_body_pi t cs v c d :
+  elr_loop_body R t (shc cs) (option_map shn v) (shc c) (sd d) = so shn (elr_loop_body R t cs v c d).
+Proof.
+  unfold elr_loop_body.
+  pb (option_map idf) by (destruct v; simpl; apply maybe_pi; [unfold opening_parenthesis; prim | apply opening3_pi]) as opening c1 d1.
+  destruct opening as [op|]; simpl.
+  2:{ destruct v; reflexivity. }
+  unfold idf.
+  destruct (if list_eqb op [40] then Some ([41], t) else if list_eqb op [60] then Some ([62], t)
+            else match op with a :: x :: _ => if a =? 94 then Some ([x], x :: t) else None | _ => None end) as [[closing t']|]; [|reflexivity].
+  pget cap c2 d2. punit c3 d3.
+  pb shn by (apply or_critical_pi; [apply (pi_expression _ HR) | reflexivity]) as e c4 d4.
+  punit c5 d5.
+  pb idf by (apply or_critical_pi; [apply literal_pi | reflexivity]) as l c6 d6.
+  pget ce c7 d7.
+  rewrite <- (pi_elr_loop _ HR). f_equal. destruct v; reflexivity.
+Qed.
+
+Lemma elr_body_pi t c d : elr_body R t (shc c) (sd d) = so shn (elr_body R t c d).
+Proof.
+  unfold elr_body. punit c1 d1. pget cs c2 d2.
+  pb (option_map idf) by (apply look_pi, opening3_pi) as m c3 d3.
+  destruct m as [a|]; simpl.
+  - apply (pi_elr_loop _ HR _ _ None).
+  - pb shn by (apply expression_literal_pi) as v c4 d4. apply (pi_elr_loop _ HR _ _ (Some v)).
+Qed.
+
+Lemma prefix_loop_body_pi t cs cop ops c d :
+  prefix_loop_body R t (shc cs) (shc cop) (shos ops) (shc c) (sd d) = so shr (prefix_loop_body R t cs cop ops c d).
+Proof.
+  unfold prefix_loop_body.
+  pb (option_map shn) by (apply maybe_pi, elr_body_pi) as m c1 d1.
+  destruct m as [e|]; simpl; [reflexivity|]. cbv zeta.
+  pb idf by (destruct ops; simpl; [apply not_term_pi | apply or_critical_pi; [apply not_term_pi | reflexivity]]) as u1 c2 d2.
+  pb (option_map idf) by (apply maybe_pi; unfold prefix_operator; prim) as ch c3 d3.
+  destruct ch as [o|]; simpl.
+  - punit c4 d4. pget cop' c5 d5. unfold idf.
+    apply (pi_prefix_loop _ HR t cs cop' (OPre (pos cop) o :: ops)).
+  - punit c4 d4. pget cb c5 d5.
+    pb idf by (destruct ops; simpl; [apply caret_nonspace_pi | apply or_critical_pi; [apply caret_nonspace_pi | reflexivity]]) as u3 c6 d6.
+    pget cl c7 d7. reflexivity.
+Qed.
+
+Lemma infix_loop_body_pi t ops st c d :
+  infix_loop_body R t (shos ops) (shl st) (shc c) (sd d) = so shn (infix_loop_body R t ops st c d).
+Proof.
+  unfold infix_loop_body.
+  pget cprev c0 d0. punit c1 d1. pget cop c2 d2.
+  pb (option_map idf) by (apply look_pi) as m c3 d3.
+  { pb idf by prim as u2 c3 d3.
+    pb idf by (unfold postfix_operator; prim) as o c4 d4.
+    apply por_pi; [apply por_pi; [apply por_pi; [apply por_pi|]|]|].
+    - apply newline_pi.
+    - intros; eapply u_pi; unfold comma; apply literal_pi.
+    - intros; eapply u_pi; unfold closing_parenthesis; apply literal_pi.
+    - intros; eapply u_pi; unfold closing_bracket; apply literal_pi.
+    - intros; apply eof_pi. }
+  destruct m as [x|]; simpl.
+  - pb idf by (unfold postfix_operator; prim) as o c4 d4.
+    pget cope c5 d5. unfold idf. rewrite ?shc_pos, pop_while_pi.
+    destruct (pop_while (op_prec o) (op_left o) (pos cprev) ops st) as [[ops' [|x0 st']]|]; simpl; try reflexivity.
+    apply (finish_expression_pi ops' (Postfix (pos cop) (pos cope) (op_char o) x0 :: st')).
+  - pb (option_map idf) by (apply maybe_pi) as ch c4 d4.
+    { pb idf by prim as u2 c5 d5. unfold infix_operator; prim. }
+    destruct ch as [o|]; simpl.
+    + pget cope c5 d5.
+      pb shn by (apply or_critical_pi; [apply elr_body_pi | reflexivity]) as e c6 d6.
+      unfold idf. rewrite ?shc_pos, pop_while_pi.
+      destruct (pop_while (op_prec o) (op_left o) (pos cprev) ops st) as [[ops' st']|]; simpl; [|reflexivity].
+      apply (pi_infix_loop _ HR t (OIn o :: ops') (e :: st')).
+    + pb idf by (apply set_pi) as u5 c5 d5. apply finish_expression_pi.
+Qed.
+
+Lemma expression_body_pi t c d : expression_body R t (shc c) (sd d) = so shn (expression_body R t c d).
+Proof.
+  unfold expression_body. punit c1 d1. pget cs c2 d2.
+  pb shr by (apply (pi_prefix_loop _ HR t cs cs [])) as r c3 d3.
+  apply (pi_infix_loop _ HR t (snd r) [fst r]).
+Qed.
+
+Lemma angle_body_pi c d : angle_body R (shc c) (sd d) = so shn (angle_body R c d).
+Proof.
+  unfold angle_body. punit c1 d1. pget cs c2 d2.
+  pb idf by (unfold opening_angle_bracket; prim) as l c3 d3.
+  pb shn by (apply (pi_expression _ HR)) as e c4 d4.
+  pb idf by (unfold closing_angle_bracket; prim) as l2 c5 d5.
+  pget ce c6 d6. reflexivity.
+Qed.
+
+Lemma chunk_pi c d : chunk R (shc c) (sd d) = so shn (chunk R c d).
+Proof. unfold chunk. apply por_pi; [apply (pi_quoted _ HR) | intros; apply angle_body_pi]. Qed.
+
+Lemma long_loop_body_pi cs ch c d : long_loop_body R (shc cs) (shl ch) (shc c) (sd d) = so shn (long_loop_body R cs ch c d).
+Proof.
+  unfold long_loop_body.
+  pb (option_map shn) by (apply maybe_pi, chunk_pi) as m c1 d1.
+  destruct m as [x|]; cbn [option_map].
+  - apply (pi_long_loop _ HR cs (x :: ch)).
+  - destruct ch as [|x [|y l]]; cbn [shl map].
+    + pget ce c2 d2. reflexivity.
+    + reflexivity.
+    + pget ce c2 d2. unfold ret. cbn [so]. rewrite shn_concat, shl_rev. reflexivity.
+Qed.
+
+Lemma long_string_body_pi c d : long_string_body R (shc c) (sd d) = so shn (long_string_body R c d).
+Proof.
+  unfold long_string_body. punit c1 d1. pget cs c2 d2.
+  pb shn by (apply chunk_pi) as c0 c3 d3. apply (pi_long_loop _ HR cs [c0]).
+Qed.
+
+Lemma operand_type_pi name idx c d : operand_type name idx (shc c) (sd d) = so idf (operand_type name idx c d).
+Proof.
+  unfold operand_type.
+  destruct (starts_with_dot name || match (match lookup_cmd name with Some c0 => Some c0 | None => lookup_cmd (46 :: name) end) with
+                                    | Some c0 => c_meta c0 | None => false end); [|reflexivity].
+  destruct (match lookup_cmd name with Some c0 => Some c0 | None => lookup_cmd (46 :: name) end) as [[m l mn mx [|ty0 tys]]|].
+  - pb (option_map idf) by (apply look_pi, string_quote_pi) as q c1 d1. destruct q; reflexivity.
+  - reflexivity.
+  - pb (option_map idf) by (apply look_pi, string_quote_pi) as q c1 d1. destruct q; reflexivity.
+Qed.
+
+Lemma by_type_pi ty c d : by_type R ty (shc c) (sd d) = so shn (by_type R ty c d).
+Proof. unfold by_type. destruct ty; try apply (pi_expression _ HR). apply long_string_body_pi. Qed.
+
+Lemma assignment_pi c d : assignment R (shc c) (sd d) = so shn (assignment R c d).
+Proof.
+  unfold assignment. punit c1 d1. pget cs c2 d2.
+  pb (option_map shn) by (apply maybe_pi, instruction_pointer_pi) as ip c3 d3.
+  pb shn by (destruct ip as [t0|]; simpl; [reflexivity|]) as target c4 d4.
+  { pb idf by (unfold symbol_literal; prim) as sym c4 d4. pget ce c5 d5. reflexivity. }
+  punit c5 d5. pget c_eq c6 d6.
+  pb idf by (unfold equals_sign; prim) as l c7 d7.
+  pb (option_map idf) by (apply maybe_pi, literal_ns_pi) as ext c8 d8.
+  pget c_after c9 d9. punit c10 d10.
+  pb shn by (apply or_critical_pi; [apply (pi_expression _ HR) | reflexivity]) as value c11 d11.
+  pb idf by (destruct target; simpl; try reflexivity) as u12 c12 d12.
+  { destruct (in_builtin name); [reflexivity|]. destruct (is_register_name name); reflexivity. }
+  pget ce c13 d13.
+  replace (is_some (option_map idf ext)) with (is_some ext) by (destruct ext; reflexivity).
+  destruct target; simpl; try reflexivity.
+  destruct (is_some ext); [|reflexivity].
+  pb idf by reflexivity as u14 c14 d14. reflexivity.
+Qed.
+
+Lemma code_body_pi brk c d : code_body R brk (shc c) (sd d) = so shn (code_body R brk c d).
+Proof. unfold code_body. pget cs c1 d1. apply (pi_code_loop _ HR brk cs []). Qed.
+
+Lemma set_brace_pi b p : set_brace (shn b) (p + k) = shn (set_brace b p).
+Proof. destruct b; reflexivity. Qed.
+Lemma junk_here_pi c : junk_here (shc c) = junk_here c. Proof. reflexivity. Qed.
+Lemma not_blank_here_pi c : not_blank_here (shc c) = not_blank_here c. Proof. reflexivity. Qed.
+
+Lemma operand_loop_body_pi name cs can ns ops cbc c d :
+  operand_loop_body R name (shc cs) (shc can) (shn ns) (shl ops) (shc cbc) (shc c) (sd d)
+  = so shn (operand_loop_body R name cs can ns ops cbc c d).
+Proof.
+  unfold operand_loop_body.
+  pb (option_map idf) by (apply maybe_pi; unfold comma; prim) as m c1 d1.
+  destruct m as [x|]; cbn [option_map].
+  - pget cac c2 d2. punit c3 d3.
+    replace (length (shl ops)) with (length ops) by (unfold shl; rewrite map_length; reflexivity).
+    pb idf by (apply operand_type_pi) as ty c4 d4.
+    pb shn by (apply or_critical_pi; [apply by_type_pi | reflexivity]) as o c5 d5.
+    pget cbc' c6 d6. apply (pi_operand_loop _ HR name cs can ns (o :: ops) cbc').
+  - pget cob c2 d2.
+    pb (option_map idf) by (apply maybe_pi; unfold opening_bracket; prim) as m2 c3 d3.
+    pb shl by (destruct m2 as [x|]; cbn [option_map]; [|reflexivity]) as ops' c4 d4.
+    { pb shn by (apply code_body_pi) as blk c4 d4. rewrite ?shc_pos, set_brace_pi. reflexivity. }
+    pget c5' c5 d5. rewrite junk_here_pi.
+    pb idf by (apply when_pi; intros; reflexivity) as u7 c7 d7.
+    unfold ret. cbn [so]. rewrite shn_insn, shl_rev. reflexivity.
+Qed.
+
+Lemma advance_pi n c : advance n (shc c) = shc (advance n c).
+Proof. unfold advance, shift_ctx. simpl. f_equal. lia. Qed.
+
+Lemma instruction_pi c d : instruction R (shc c) (sd d) = so shn (instruction R c d).
+Proof.
+  unfold instruction; cbv zeta.
+  pget cs c1 d1.
+  pb idf by prim as name c2 d2. unfold idf.
+  pget can c3 d3.
+  pb idf by (apply when_pi; intros; reflexivity) as u4 c4 d4.
+  pb idf by idtac as u5 c5 d5.
+  { destruct (lookup_cmd name) as [cm|].
+    - pb (option_map idf) by (apply look_pi; unfold comma; prim) as m c5 d5.
+      replace (is_some (option_map idf m)) with (is_some m) by (destruct m; reflexivity).
+      destruct (is_some m); [|reflexivity].
+      punit c6 d6. pget cbc c7 d7.
+      pb idf by (unfold comma; prim) as l c8 d8.
+      pget cl c9 d9. reflexivity.
+    - destruct (starts_with_dot name); [reflexivity|].
+      pb (option_map idf) by (apply maybe_pi) as m c5 d5.
+      + apply por_pi.
+        * eapply u_pi; unfold comma; apply literal_pi.
+        * intros.
+          pb idf by (eapply not_pi; unfold prefix_operator; apply either_lit_pi) as u6 c6 d6.
+          pb idf by (eapply not_pi; apply caret_parenthesis_pi) as u7 c7 d7.
+          eapply u_pi; unfold infix_operator; apply either_lit_pi.
+      + destruct m; reflexivity. }
+  destruct (match lookup_cmd name with Some c0 => c_meta c0 && c_litstr c0 | None => false end).
+  { pget c6' c6 d6. rewrite shc_rest.
+    destruct (strip (line_of (rest c6'))) as [|t0 text]; cbv iota.
+    - pget ce c7 d7. reflexivity.
+    - rewrite advance_pi.
+      pb idf by (apply set_pi) as u7 c7 d7.
+      pget cbm c8 d8. rewrite advance_pi.
+      pb idf by (apply set_pi) as u9 c9 d9.
+      pget ce c10 d10. reflexivity. }
+  pb (option_map idf) by (apply look_pi; unfold closing_bracket; prim) as m6 c6 d6.
+  replace (is_some (option_map idf m6)) with (is_some m6) by (destruct m6; reflexivity).
+  destruct (is_some m6). { pget ce c7 d7. reflexivity. }
+  pb (option_map idf) by (apply look_pi, newline_pi) as m7 c7 d7.
+  replace (is_some (option_map idf m7)) with (is_some m7) by (destruct m7; reflexivity).
+  pb idf by idtac as stop c8 d8.
+  { destruct (is_some m7); [|reflexivity].
+    destruct (match lookup_cmd name with Some c0 => 0 <? c_min c0 | None => false end); [|reflexivity].
+    pb idf by reflexivity as u8 c8 d8. reflexivity. }
+  unfold idf. destruct stop. { pget ce c9 d9. reflexivity. }
+  pb (option_map idf) by (apply look_pi) as next c9 d9.
+  { pb idf by prim as nm c10 d10.
+    pb idf by (eapply not_pi; unfold colon; apply literal_pi) as u11 c11 d11. reflexivity. }
+  pb idf by idtac as split c10 d10.
+  { destruct (lookup_cmd name) as [cm|]; [|destruct next; reflexivity]. destruct next as [nm|]; simpl; [|reflexivity].
+    unfold idf. destruct ((match c_max cm with Some 0 => true | _ => false end) && in_builtin nm); [|reflexivity].
+    pget c0' c11 d11. rewrite skip_ctx_pi.
+    pb (fun r : option unit * ctx => (option_map idf (fst r), shc (snd r))) by (apply on_copy_pi) as r c12 d12.
+    { pb idf by prim as nm2 c12 d12.
+      apply look_pi. apply por_pi; [apply por_pi|].
+      - eapply u_pi; unfold comma; apply literal_pi.
+      - intros; eapply u_pi; unfold infix_operator; apply either_lit_pi.
+      - intros; eapply u_pi; unfold postfix_operator; apply either_lit_pi. }
+    destruct r as [[u0|] cc]; reflexivity. }
+  unfold idf. destruct split. { pget ce c11 d11. reflexivity. }
+  pb idf by (apply operand_type_pi) as ty c11 d11.
+  pb (option_map shn) by (apply maybe_pi, by_type_pi) as first c12 d12.
+  destruct first as [fo|]; simpl.
+  - pget cl c13 d13. rewrite not_blank_here_pi.
+    pb idf by (apply when_pi; intros; reflexivity) as u14 c14 d14.
+    apply (pi_operand_loop _ HR name cs can (Symbol (pos cs) (pos can) name false) [fo] cl).
+  - rewrite ?shc_rest.
+    pb idf by (destruct (rest can); [reflexivity|]) as u13 c13 d13.
+    { punit c13 d13. pget cl c14 d14. reflexivity. }
+    pget ce c14 d14. reflexivity.
+Qed.
+
+Lemma words_loop_body_pi cs cafo ws c d :
+  words_loop_body R (shc cs) (shc cafo) (shl ws) (shc c) (sd d) = so shn (words_loop_body R cs cafo ws c d).
+Proof.
+  unfold words_loop_body. cbv zeta.
+  pget c0 c1 d1. rewrite skip_ctx_pi.
+  pb (option_map idf) by (apply maybe_pi; unfold comma; prim) as m c2 d2.
+  destruct m as [x|]; simpl.
+  - pget cac c3 d3. punit c4 d4.
+    pb shn by (apply or_critical_pi; [apply (pi_expression _ HR) | reflexivity]) as w c5 d5.
+    apply (pi_words_loop _ HR cs cafo (w :: ws)).
+  - pget c3' c3 d3. rewrite junk_here_pi.
+    pb idf by idtac as u4 c4 d4.
+    { destruct (junk_here c3'); [reflexivity|].
+      pb (option_map idf) by (apply look_pi, por_pi; [apply newline_pi | intros; apply eof_pi]) as m2 c4 d4.
+      replace (is_some (option_map idf m2)) with (is_some m2) by (destruct m2; reflexivity).
+      apply when_pi; intros; reflexivity. }
+    unfold ret. cbn [so]. rewrite shn_words, shl_rev. reflexivity.
+Qed.
+
+Lemma word_list_pi c d : word_list R (shc c) (sd d) = so shn (word_list R c d).
+Proof.
+  unfold word_list. punit c1 d1. pget cs c2 d2.
+  pb shn by (apply (pi_expression _ HR)) as w0 c3 d3.
+  pget cafo c4 d4. apply (pi_words_loop _ HR cs cafo [w0]).
+Qed.
+
+Lemma statement_pi c d : statement R (shc c) (sd d) = so shn (statement R c d).
+Proof.
+  unfold statement. apply por_pi; [apply por_pi; [apply por_pi|]|].
+  - apply label_pi.
+  - intros; apply assignment_pi.
+  - intros; apply instruction_pi.
+  - intros; apply word_list_pi.
+Qed.
+
+Lemma is_end_insn_pi n : is_end_insn (shn n) = is_end_insn n.
+Proof. destruct n; try reflexivity. rewrite shn_insn. destruct n; reflexivity. Qed.
+Lemma ctx_eof_pi c : ctx_eof (shc c) = ctx_eof c.
+Proof. unfold ctx_eof. rewrite skip_ctx_pi. reflexivity. Qed.
+
+Lemma code_loop_body_pi brk cs insns c d :
+  code_loop_body R brk (shc cs) (shl insns) (shc c) (sd d) = so shn (code_loop_body R brk cs insns c d).
+Proof.
+  unfold code_loop_body.
+  pget c0 c1 d1. rewrite ctx_eof_pi.
+  destruct (ctx_eof c0). { unfold ret. cbn [so]. rewrite shn_block, shl_rev. reflexivity. }
+  punit c2 d2. pget cs' c3 d3.
+  pb (option_map idf) by (destruct brk; [apply maybe_pi; unfold closing_bracket; prim | reflexivity]) as m c4 d4.
+  destruct m as [x|]; cbn [option_map].
+  { pget ce c5 d5. unfold ret. cbn [so]. rewrite shn_block, shl_rev. reflexivity. }
+  pb shn by (apply or_critical_pi; [apply statement_pi | reflexivity]) as insn c5 d5.
+  rewrite is_end_insn_pi.
+  destruct (negb brk && is_end_insn insn).
+  { pget ce c6 d6. unfold ret. cbn [so]. rewrite shn_block. change (shn insn :: shl insns) with (shl (insn :: insns)). rewrite shl_rev. reflexivity. }
+  apply (pi_code_loop _ HR brk cs' (insn :: insns)).
+Qed.
+End BodiesPi.
+
+Lemma funs_at_pi fuel : funs_pi (funs_at fuel).
+Proof.
+  induction fuel as [|f IH].
+  - constructor; intros; reflexivity.
+  - constructor; simpl; intros.
+    + apply (expression_body_pi _ IH).
+    + apply (prefix_loop_body_pi _ IH).
+    + apply (infix_loop_body_pi _ IH).
+    + apply (elr_loop_body_pi _ IH).
+    + apply (long_loop_body_pi _ IH).
+    + apply (operand_loop_body_pi _ IH).
+    + apply (words_loop_body_pi _ IH).
+    + apply (code_loop_body_pi _ IH).
+    + apply quoted_string_pi.
+Qed.
 End Shift.
+
+(* ---- the statements ------------------------------------------------------------------------------------------ *)
+Theorem parse_position_independent fuel p k text :
+  parse_at fuel (p + k) text = shift_result k (parse_at fuel p text).
+Proof.
+  unfold parse_at.
+  pose proof (code_body_pi k _ (funs_at_pi k fuel) false (mkCtx p text) []) as H.
+  unfold shift_ctx in H; simpl in H. rewrite H.
+  destruct (code_body (funs_at fuel) false {| pos := p; rest := text |} []); simpl; auto;
+    unfold sd; rewrite <- map_rev; reflexivity.
+Qed.
+Lemma parse_file_at fuel text : parse_file fuel text = parse_at fuel 0 text.
+Proof. reflexivity. Qed.
+
+(* blank material in front of the first statement: the same tree, everything moved by its length *)
+Lemma code_loop_skip R brk cs cs2 insns c d :
+  ctx_eof c = false ->
+  code_loop_body R brk cs insns c d = code_loop_body R brk cs2 insns (skip_ctx c) d.
+Proof.
+  intros He. unfold code_loop_body, bind, get, skip_ws.
+  assert (He2 : ctx_eof (skip_ctx c) = false) by (unfold ctx_eof in *; rewrite skip_ctx_idem; exact He).
+  rewrite He, He2, skip_ctx_idem. reflexivity.
+Qed.
+
+Theorem leading_blank_insensitive fuel ws text :
+  blank_run ws -> ctx_eof (mkCtx 0 text) = false ->
+  parse_file (S fuel) (ws ++ text) = shift_result (len ws) (parse_file (S fuel) text).
+Proof.
+  intros Hws He.
+  set (c1 := mkCtx 0 (ws ++ text)). set (c2 := mkCtx 0 text).
+  assert (Hr : rest (skip_ctx c1) = rest (skip_ctx c2)) by (apply blank_absorbed; exact Hws).
+  assert (Hs : skip_ctx c1 = shift_ctx (len ws) (skip_ctx c2)).
+  { destruct (skip_ctx_is_skip c1) as [_ P1]. destruct (skip_ctx_is_skip c2) as [_ P2].
+    unfold shift_ctx. destruct (skip_ctx c1) as [p1 r1], (skip_ctx c2) as [p2 r2]. simpl in *. subst r1.
+    f_equal. unfold c1, c2, len in *; simpl in *. rewrite app_length in P1. lia. }
+  assert (He1 : ctx_eof c1 = false) by (unfold ctx_eof in *; rewrite Hr; exact He).
+  unfold parse_file. fold c1 c2. unfold code_body, bind, get. simpl r_code_loop.
+  rewrite (code_loop_skip _ false c1 (shift_ctx (len ws) c2) [] c1 [] He1).
+  rewrite (code_loop_skip _ false c2 c2 [] c2 [] He).
+  rewrite Hs.
+  pose proof (code_loop_body_pi (len ws) _ (funs_at_pi (len ws) fuel) false c2 [] (skip_ctx c2) []) as H.
+  simpl in H. rewrite H.
+  destruct (code_loop_body (funs_at fuel) false c2 [] (skip_ctx c2) []); simpl; auto;
+    unfold sd; rewrite <- map_rev; reflexivity.
+Qed.
